@@ -503,6 +503,20 @@ ARITH_TABLE = {
 }
 
 
+def _literal_divisor(b, t):
+    """The assert condition is `divisor == 0`; a divisor that is a non-zero literal cannot trip it."""
+    c = t.raw.get('c')
+    if not c or c[0] == 'k' or c[1][1]:
+        return False
+    d = b.single_def(c[1][0])
+    if d is None or d[1] == 'term' or d[2].rv.k != 'bin' or d[2].rv.raw.get('op') != 'Eq':
+        return False
+    vals = [o.int_value() for o in d[2].rv.ops]
+    # Eq(divisor, 0): the divisor is the operand that is not the literal 0; literal non-zero divisor => both const
+    consts = [o for o in d[2].rv.ops if o.kind == 'k']
+    return len(consts) == 2 and any(v not in (None, 0) for v in vals)
+
+
 def _arith_sites(prog):
     out = defaultdict(list)
     for q, b in prog.bodies.items():
@@ -527,6 +541,8 @@ def _arith_sites(prog):
                     ty = b.locals[o[1][0]]
             if ty == 'usize' and m in ('Overflow(Add)', 'Overflow(Mul)'):
                 continue
+            if m in ('DivisionByZero', 'RemainderByZero') and _literal_divisor(b, t):
+                continue
             out[b.root or q].append((m, ty, t.line, b.file))
     return out
 
@@ -541,7 +557,7 @@ def _arith(ctx, cfg, prog, mod):
         return
     has_overflow_checks = any(m.startswith('Overflow') for lst in sites.values() for m, _, _, _ in lst)
     ctx.floor('checked arithmetic sites enumerated (%s)' % ('overflow checks on' if has_overflow_checks else 'division checks only'),
-              60 if has_overflow_checks else 8, total, cfg)
+              50 if has_overflow_checks else 1, total, cfg)
     for root, lst in sorted(sites.items()):
         ent = ARITH_TABLE.get(root)
         site = '%s:%d' % (lst[0][3], lst[0][2])
